@@ -186,7 +186,7 @@ impl Prop for C16Prop {
         "C16"
     }
     fn rule(&self) -> String {
-        "Cases are call histories: 200..1000 (quick) / up to 5000 (thorough) calls (evaluator, expression, placeholder) drawn from a per-history dictionary of 12..60 expressions (well-formed with and without @, error-producing, malformed for the parser and for the lexer (1.2.3, 1..5, stray characters), aggregates around failing arguments and around nested aggregates, whitespace of several kinds sprinkled into a third of the entries, non-ASCII spellings (π, ², ³) in a quarter, long aggregate lists with equal values in different spellings, one call in ten followed by a run of 3..7 different functions (W, factorial, exp, ln, sqrt, sin …) at the same or adjacent arguments in one evaluator, one call in six followed by a same-length sibling of its text (one character changed near the end) under the same placeholder, plus 1..3 argument sweeps: one function - Lambert W weighted - at 3..6 nearby arguments) so that keys repeat, each reused with changing placeholders and interleaved across all five evaluators; the whole history is one generated value (a choice sequence) and shrinks as one. Oracle (no-state model): every occurrence of a key must return, bit for bit, the outcome of its isolated first-time evaluation, computed by a fresh child process making exactly that one call. The history is run sequentially in-process, then replayed concurrently by 16 threads each starting at a different rotation, then every thread evaluates the deepest inputs 256 characters allow at the same time as the others (process-wide counters), then hammers one expression with different placeholders. One call in five is followed by an immediate repeat of the same expression with a placeholder pair that compares equal but differs (0.0/-0.0, 2/2.00, Integer 3/Float 3.0). Sub-check cold-start: a fresh child process starts 16 threads that make the same call as their very first one at the same moment (every lazily initialised table or cache is raced exactly once per process) and then the other cold-start expressions in rotated order; every outcome must be the isolated one. Sub-check after-failures: for every evaluator, every kind of failing call (lexer, parser, evaluation error under every operator and function form) is made 1100 times in a row and a set of plain expressions must then answer as in a fresh process. non-trivial = an occurrence whose expression occurred earlier in the history with a different placeholder or evaluator, or that directly follows an Err-producing call; distinct by (key, predecessor key). evaluations counts library calls (sequential + concurrent + child processes).".into()
+        "Cases are call histories: 200..1000 (quick) / up to 5000 (thorough) calls (evaluator, expression, placeholder) drawn from a per-history dictionary of 12..60 expressions (well-formed with and without @, error-producing, malformed for the parser and for the lexer (1.2.3, 1..5, stray characters), aggregates around failing arguments and around nested aggregates, whitespace of several kinds sprinkled into a third of the entries, non-ASCII spellings (π, ², ³) in a quarter, long aggregate lists with equal values in different spellings, one call in ten followed by a run of 3..7 different functions (W, factorial, exp, ln, sqrt, sin …) at the same or adjacent arguments in one evaluator, one call in six followed by a same-length sibling of its text (one character changed near the end) under the same placeholder, plus 1..3 argument sweeps: one function - Lambert W weighted - at 3..6 nearby arguments) so that keys repeat, each reused with changing placeholders and interleaved across all five evaluators; the whole history is one generated value (a choice sequence) and shrinks as one. Oracle (no-state model): every occurrence of a key must return, bit for bit, the outcome of its isolated first-time evaluation, computed by a fresh child process making exactly that one call. The history is run sequentially in-process, then replayed concurrently by 16 threads each starting at a different rotation, then every thread evaluates the deepest inputs 256 characters allow at the same time as the others (process-wide counters), then hammers one expression with different placeholders. One call in five is followed by an immediate repeat of the same expression with a placeholder pair that compares equal but differs (0.0/-0.0, 2/2.00, Integer 3/Float 3.0). Sub-check host-depth: the same call made from 0.5 … 6 MiB deeper in the caller's stack and back. Sub-check cold-start: a fresh child process starts 16 threads that make the same call as their very first one at the same moment (every lazily initialised table or cache is raced exactly once per process) and then the other cold-start expressions in rotated order; every outcome must be the isolated one. Sub-check after-failures: for every evaluator, every kind of failing call (lexer, parser, evaluation error under every operator and function form) is made 1100 times in a row and a set of plain expressions must then answer as in a fresh process. non-trivial = an occurrence whose expression occurred earlier in the history with a different placeholder or evaluator, or that directly follows an Err-producing call; distinct by (key, predecessor key). evaluations counts library calls (sequential + concurrent + child processes).".into()
     }
     fn assumptions(&self) -> Vec<String> {
         vec!["thread interleavings are whatever the OS produces under 16-way contention (not enumerated): the crate uses no synchronisation primitive a schedule explorer could intercept".into()]
@@ -196,10 +196,19 @@ impl Prop for C16Prop {
         vec![
             Sub { name: "history", kind: SubKind::Random { cases: tier.pick(48, 1600), len: tier.pick(3000, 12000) as usize } },
             Sub { name: "after-failures", kind: SubKind::Enum { count: n } },
+            Sub { name: "host-depth", kind: SubKind::Enum { count: 5 * 6 } },
             Sub { name: "cold-start", kind: SubKind::Enum { count: cold_start_exprs().len() as u64 * tier.pick(4, 40) } },
         ]
     }
     fn gen_enum(&self, sub: &str, mut idx: u64, _tier: Tier) -> Option<Case> {
+        if sub == "host-depth" {
+            // the caller's own stack depth is no input of the function: the same call from 0.5 … 6 MiB deeper in the host
+            // stack (the shard threads have 16 MiB) must answer as in a fresh process
+            let ev = Ev::ALL[(idx % 5) as usize];
+            let mut case = Case::new(ev, ["2*(3+4)", "((1+2)*3)-4", "abs(-3)+2^3"][(idx / 5) as usize % 3].to_string(), Val::default_for(ev));
+            case.aux = vec!["host-depth".into(), ["512", "1024", "2048", "3072", "4096", "6144"][(idx / 5) as usize % 6].to_string()];
+            return Some(case);
+        }
         if sub == "cold-start" {
             let xs = cold_start_exprs();
             let (ev, x) = xs[idx as usize % xs.len()];
@@ -300,6 +309,35 @@ impl Prop for C16Prop {
         Some(case)
     }
     fn check(&self, _sub: &str, case: &Case, sc: &mut ShardCtx) -> Result<(), Failure> {
+        if case.aux.first().map(|s| s == "host-depth").unwrap_or(false) {
+            #[inline(never)]
+            fn deeper(levels: usize, key: &Key) -> String {
+                let mut pad = [0u8; 64 * 1024];
+                pad[levels % pad.len()] = levels as u8;
+                let pad = std::hint::black_box(pad);
+                let r = if levels == 0 { call(key) } else { deeper(levels - 1, key) };
+                std::hint::black_box(pad[0]);
+                r
+            }
+            let key: Key = (case.ev, case.ph.enc(), case.input.clone());
+            let want = match isolated(&key) {
+                Some(w) => w,
+                None => return Ok(()),
+            };
+            let kib: usize = case.aux[1].parse().unwrap_or(512);
+            let shallow = call(&key);
+            let deep = deeper(kib / 64, &key);
+            let again = call(&key);
+            sc.evals(3);
+            for (what, got) in [("at the shard's own depth", &shallow), ("from deeper in the host stack", &deep), ("back at the original depth", &again)] {
+                if *got != want {
+                    return Err(Failure::new(format!("history/host-depth/{}", case.ev.name()), format!("{} (isolated first-time evaluation)", want), format!("{} {} ({} KiB deeper)", got, what, kib)));
+                }
+            }
+            sc.class("host-depth");
+            sc.nontrivial(case.hash(), || serde_json::json!({"evaluator": case.ev.name(), "expression": case.input, "host_stack_offset_kib": kib, "outcome": deep}));
+            return Ok(());
+        }
         if case.aux.first().map(|s| s == "cold-start").unwrap_or(false) {
             // a fresh process in which 16 threads make this call as their very first one at the same moment, then all the
             // other cold-start expressions in rotated order; every outcome must be the isolated one
